@@ -663,13 +663,46 @@ def resets_all_pairs(e):
     from vstatic.terms import pretty
     if len(e.loops) < 2:
         return False
+    from vstatic import terms as T
+    TABLES = ('digitizer', 'filterbank', 'requantizer')
+
+    def tables_of(it):
+        """the component tables a loop walks in step: self.<table> / zip(self.<table>, ...) / enumerate(...) -- every table has
+        num_antennas rows of num_pols elements (constructor, C02-D8), so walking any of them in step visits every index"""
+        a = it.single_atom()
+        if a is None:
+            return None
+        if a.kind == 'call' and a.args[0] == 'zip' and a.args[1] and not a.args[2]:
+            parts = [tables_of(x) for x in a.args[1]]
+            return None if any(x is None for x in parts) else [y for x in parts for y in x]
+        if a.kind == 'call' and a.args[0] == 'enumerate' and len(a.args[1]) == 1 and not a.args[2]:
+            return tables_of(a.args[1][0])
+        return [it]
+
+    def is_table(t, outer):
+        a = t.single_atom()
+        if outer is not None:
+            if a is None or a.kind != 'sub':
+                return False
+            x = a.args[1].single_atom()
+            if not (x is not None and x.kind == 'idx' and outer['id'] in [str(z) for z in x.args]):
+                return False
+            a = a.args[0].single_atom()
+        return a is not None and a.kind == 'attr' and a.args[1] in TABLES and a.args[0].key == T.sym('self').key
+
     by = {}
     for l in e.loops:
         it = pretty(l['iter'])
         if it == 'range(self.num_antennas)':
             by['a'] = l
-        if it == 'range(self.num_pols)':
+        elif it == 'range(self.num_pols)':
             by['p'] = l
+        else:
+            tb = tables_of(l['iter'])
+            if tb and all(is_table(t, None) for t in tb):
+                by['a'] = l
+            elif tb and 'a' in by and all(is_table(t, by['a']) for t in tb):
+                by['p'] = l
     if len(by) != 2:
         return False
     ia, ip = e.data['_idx']
